@@ -202,7 +202,7 @@ func VerifHarness_C08_record_prehandshake() {
 // C09 — a flood of non-advancing records (warning alerts, empty application data after the handshake) is
 // cut off after maxUselessRecords; every accepted record consumes input.
 //
-//verif:harness props=C09,C08 paths=2000 unwind=40 depth=400 reach=cutoff
+//verif:harness props=C09 paths=2000 unwind=40 depth=400 reach=cutoff
 func VerifHarness_C09_useless_records() {
 	kind := verifSplitInt("kind", 0, 1)
 	k := 20
